@@ -47,15 +47,25 @@ def id_rev_pid(s):
         return -1
 
 
+USE_TLS = False          # WsClient speaks TLS (certificate not verified) while this is set
+
+
 class WsClient:
     def __init__(self, name, src_ip, server):
         self.name = name
+        self.cert_sha = None
         self.fam = socket.AF_INET6 if ":" in src_ip else socket.AF_INET
         self.sock = socket.socket(self.fam, socket.SOCK_STREAM)
         self.sock.setsockopt(socket.IPPROTO_TCP, socket.TCP_NODELAY, 1)
         self.sock.bind((src_ip, 0))
-        self.sock.settimeout(5.0)
+        self.sock.settimeout(5.0 * load_factor())
         self.sock.connect(server)
+        if USE_TLS:
+            import hashlib
+            from http_e2e import tls_wrap
+            self.sock = tls_wrap(self.sock)
+            self.sock.settimeout(5.0 * load_factor())
+            self.cert_sha = hashlib.sha256(self.sock.getpeercert(binary_form=True)).hexdigest()
         key = base64.b64encode(os.urandom(16)).decode()
         req = ("GET / HTTP/1.1\r\nHost: localhost\r\nUpgrade: websocket\r\nConnection: Upgrade\r\n"
                "Sec-WebSocket-Key: %s\r\nSec-WebSocket-Version: 13\r\n\r\n" % key)
@@ -116,8 +126,10 @@ class WsClient:
                 self.buf += chunk
         except (BlockingIOError, InterruptedError):
             pass
-        except OSError:
-            self.closed = True
+        except OSError as e:
+            # a non-blocking TLS socket reports "nothing to read yet" as SSLWantReadError (an OSError)
+            if type(e).__name__ not in ("SSLWantReadError", "SSLWantWriteError"):
+                self.closed = True
         while True:
             if len(self.buf) < 2:
                 break
